@@ -37,6 +37,7 @@ STATE_MEASURE = "distinct sequential-model states (entries in recency order with
 COMPONENTS_REAL = ["dns.resolver.Cache", "dns.resolver.LRUCache", "dns.resolver.LRUCacheNode", "dns.resolver.CacheBase/CacheStatistics"]
 COMPONENTS_STUB = ["time module inside dns.resolver (virtual clock)", "threading.Lock inside dns.resolver (scheduler shim)", "Answer values (only .expiration is read)", "client threads"]
 EXPECTED_PROBES = [
+    "real_answer_object_cached",
     "expired_entry_requested",
     "eviction_at_limit",
     "put_existing_key",
@@ -63,6 +64,44 @@ class FakeAnswer:
 
     def __repr__(self):
         return f"<A{self.uid}@{self.expiration}>"
+
+
+_ANSWERS = {}
+
+
+def prepare_answer(uid, ttl, abs_exp, res=None):
+    """For whole-second TTLs three puts in four store a *real* dns.resolver.Answer built from a
+    response (the answer behind a CNAME with the smaller TTL on either side, or a negative answer
+    whose lifetime comes from the SOA); its expiration must be now + the minimum TTL."""
+    import dns.message
+    import dns.name
+    import dns.rrset
+    import dns.rdatatype
+    import dns.rdataclass
+
+    if uid % 4 == 0 or ttl < 0 or abs(round(ttl) - ttl) > 1e-9:
+        return
+    ttl = int(round(ttl))
+    variant = uid % 4
+    qname = dns.name.from_text(f"q{uid}.example.")
+    q = dns.message.make_query(qname, "A")
+    r = dns.message.make_response(q)
+    if variant == 1:
+        r.answer.append(dns.rrset.from_text(qname, ttl, "IN", "CNAME", "t.other.test."))
+        r.answer.append(dns.rrset.from_text("t.other.test.", ttl + 7, "IN", "A", "10.0.0.1"))
+    elif variant == 2:
+        r.answer.append(dns.rrset.from_text(qname, ttl + 300, "IN", "CNAME", "t.other.test."))
+        r.answer.append(dns.rrset.from_text("t.other.test.", ttl, "IN", "A", "10.0.0.1"))
+    else:
+        r.authority.append(dns.rrset.from_text("example.", ttl + (5 if uid % 8 == 3 else 0), "IN", "SOA", f"ns. h. 1 2 3 4 {ttl if uid % 8 == 3 else ttl + 9}"))
+    r = dns.message.from_wire(r.to_wire())
+    ans = _R.Answer(qname, dns.rdatatype.A, dns.rdataclass.IN, r)
+    if abs(ans.expiration - abs_exp) > 1e-6:
+        raise Violation("C17:answer-expiration", f"an Answer built at {VT.now} from a response whose minimum TTL is {ttl}s ({['', 'CNAME TTL below the address TTL', 'address TTL below the CNAME TTL', 'negative answer, SOA'][variant]}) expires at {ans.expiration}, not at {abs_exp}")
+    ans.uid = uid
+    _ANSWERS[uid] = ans
+    if res is not None:
+        res.probes.inc("real_answer_object_cached")
 
 
 def setup():
@@ -139,14 +178,34 @@ def m_apply(kind, st, op, now):
     raise ValueError(o)
 
 
+_SPELL = [0]
+
+
+class _Respelled:
+    """keys[i] handed to the cache as a *new* equal object each time, the owner name in alternating
+    case (cache keys are compared by value, names case-insensitively; never by identity)."""
+
+    def __init__(self, keys):
+        self.keys = keys
+
+    def __getitem__(self, i):
+        import dns.name
+
+        k = self.keys[i]
+        _SPELL[0] += 1
+        text = k[0].to_text()
+        return (dns.name.from_text(text.upper() if _SPELL[0] % 2 else text.lower()), k[1], k[2])
+
+
 def r_apply(cache, kind, op, keys):
     """Run the op on the real cache; returns a comparable result."""
     o = op[0]
+    keys = _Respelled(keys)
     if o == "get":
         v = cache.get(keys[op[1]])
         return None if v is None else v.uid
     if o == "put":
-        return cache.put(keys[op[1]], FakeAnswer(op[3], op[2]))
+        return cache.put(keys[op[1]], _ANSWERS.get(op[2]) or FakeAnswer(op[3], op[2]))
     if o == "flush":
         return cache.flush(keys[op[1]])
     if o == "flushall":
@@ -161,7 +220,11 @@ def r_apply(cache, kind, op, keys):
         return cache.misses()
     if o == "snap":
         s = cache.get_statistics_snapshot()
-        return (s.hits, s.misses)
+        vals = (s.hits, s.misses)
+        # the caller owns the snapshot: it may keep it and do what it likes with it
+        s.hits += 1000
+        s.misses += 1000
+        return vals
     if o == "reset":
         return cache.reset_statistics()
     raise ValueError(o)
@@ -359,6 +422,7 @@ def _run_seq(case, res, log):
         if op[0] == "put":
             uid += 1
             op[2] = uid
+            prepare_answer(uid, op[3], now + op[3], res)
             op[3] = now + op[3]  # absolute expiration
             if any(e[0] == op[1] for e in st[0]):
                 res.probes.inc("put_existing_key")
@@ -524,6 +588,7 @@ def _run_conc(case, res, log):
                 if op[0] == "put":
                     uid[0] += 1
                     op[2] = uid[0]
+                    prepare_answer(uid[0], op[3], VT.now + op[3], res)
                     op[3] = VT.now + op[3]
                 seq[0] += 1
                 rec = {"inv": seq[0], "ret": None, "op": tuple(op), "now": VT.now, "t_lock": None, "t_ret": None, "result": None, "thread": t.idx}
@@ -622,6 +687,8 @@ def _run_conc(case, res, log):
 def run_case(case, keep_log=False):
     res = RunResult()
     log = EventLog(keep=keep_log)
+    _SPELL[0] = 0
+    _ANSWERS.clear()
     try:
         if case["mode"] == "seq":
             _run_seq(case, res, log)
